@@ -324,6 +324,65 @@ int main()
         printf("bad-op");
       delete a;
     }
+    else if(hxIs(l, "deep", 2))
+    {
+      // copies share their Variant payloads: a write through the copy (mutable toElement() clones a
+      // shared element; Variant assignment counts the payload) must leave the source alone.
+      // Only generated when Xml.hpp carries the repairs of Xml::Variant (see tools/areas/xml.py).
+      Xml::Element* a = new Xml::Element;
+      if(specTree(l.tok[1], *a))
+      {
+        unsigned long depth = hxNum(l, 2);
+        Xml::Element b(*a);
+        Xml::Element* cur = &b;
+        for(unsigned long d = 0; d < depth; ++d)
+        {
+          Xml::Element* next = 0;
+          for(List<Xml::Variant>::Iterator i = cur->content.begin(), end = cur->content.end(); i != end; ++i)
+            if(i->isElement())
+            {
+              Xml::Variant& v = *i;
+              next = &v.toElement();
+              break;
+            }
+          if(!next)
+            break;
+          cur = next;
+        }
+        cur->type = String("zz");
+        cur->content.append(Xml::Variant(String("new")));
+        Xml::Variant v, w;
+        if(!a->content.isEmpty())
+        {
+          v = a->content.front();
+          v = v;
+          w = v;
+          v = Xml::Variant(String("x"));
+          if(w.isElement())
+            w.toElement().type = String("yy");
+        }
+        printf("dp ");
+        dump(*a, false);
+        delete a;
+        a = 0;
+        fputc(' ', stdout);
+        dump(b, false);
+        fputc(' ', stdout);
+        if(w.isElement())
+          dump(w.toElement(), false);
+        else if(w.isText())
+        {
+          fputc('t', stdout);
+          String t = w.toString();
+          if(t.length()) hxPutHex((const char*)t, t.length());
+        }
+        else
+          fputc('n', stdout);
+      }
+      else
+        printf("bad-op");
+      delete a;
+    }
     else if(hxIs(l, "esc", 2) && (strcmp(l.tok[1], "0") == 0 || strcmp(l.tok[1], "1") == 0) && isHexTok(l.tok[2]))
     {
       size_t len = 0;
